@@ -66,7 +66,7 @@ def check_lookups(ds, exp, dims, what):
 
 def run_history(vec):
     problems = run_history_in(vec, 0)
-    if not problems and hash(json.dumps(vec["hist"], sort_keys=True)) % 5 == 0:
+    if not problems and hash(json.dumps(vec["hist"], sort_keys=True)) % 8 == 0:
         # the same history over LONG dimensions (tens of thousands of items; no array is allocated): sizes are exact integers
         problems = [f"[dimensions inflated by {INFLATE} items] " + p for p in run_history_in(vec, INFLATE)]
     return problems
@@ -133,6 +133,8 @@ def run_history_in(vec, inflate):
                     result = s.drop(k, inplace=inplace)
                 else:
                     result = s.replace(k, dims[d], inplace=inplace)
+            elif op == "expand_many":
+                result = s.expand_by([dims[d] for d in args[0]], inplace=inplace)
             elif op == "subset":
                 keys = tuple(args[0])
                 result = s.get_subset(keys) if n % 2 else s[keys]
